@@ -42,7 +42,7 @@ H(a, l, s) ==
 (* The item carries the header fields AFTER the mutation (they are what     *)
 (* Event::new reads) and the verdict validate_operation must give.          *)
 ParamTag(k, x) ==
-    IF k = "SeqChanged" THEN ToString(x)
+    IF k \in {"SeqChanged", "GapLinked"} THEN ToString(x)
     ELSE IF k \in {"ClaimOtherAuthor", "ForgedPrune", "Resigned", "ResignedLinked"} THEN x ELSE ""
 FId(b, k, x) == [b.id EXCEPT !.v = k \o ":" \o ParamTag(k, x)]
 
@@ -63,6 +63,11 @@ Forge(b, k, x) ==
       \* verifying key replaced by the attacker's and re-signed with the attacker's key:
       \* a VALID operation of the attacker whose backlink points into the victim's log
       [] k = "Resigned"          -> [b EXCEPT !.id = FId(b, k, x), !.a = x]
+      \* signed by the log's OWN author, no prune flag, but the sequence number x skips at least one
+      \* number after the operation b it backlinks to (b.seq + 2 <= x; x = MaxSeq + 2 stands for a
+      \* far jump, the harness uses u32::MAX): never extends the log - if b is the latest stored entry
+      \* it is "non-incremental seq", if the latest is another entry it is "wrong backlink"
+      [] k = "GapLinked"         -> [b EXCEPT !.id = FId(b, k, x), !.seq = x, !.bl = b.id, !.prune = FALSE]
       \* the attacker mirrors the victim's chain under its own key: like Resigned, but the backlink is
       \* fixed up to the attacker's copy of the predecessor (a well-linked attacker chain)
       \* (at seq 0 there is no backlink: the copy IS the Resigned copy, same bytes, same id)
@@ -77,6 +82,7 @@ Params(b, k) ==
       [] k \in {"Resigned", "ResignedLinked"} -> Mallory
       [] k = "CrossLog"   -> Log \ {b.l}
       [] k = "SeqChanged" -> (0..MaxSeq) \ {b.seq}
+      [] k = "GapLinked"  -> (b.seq + 2)..(MaxSeq + 2)
       [] OTHER            -> {0}
 
 ---------------------------------------------------------------------------
@@ -194,5 +200,6 @@ AllClasses == {"BadSig", "BadVersion", "PayloadInfoInconsistent", "BacklinkSeqIn
                "BacklinkChanged", "ForgedPrune", "Resigned"}
 OnlyResigned == {"Resigned", "ResignedLinked"}
 OnlyCrossLog == {"CrossLog"}
+OnlyGapLinked == {"GapLinked"}
 PruneAttackClasses == {"ForgedPrune", "PruneFlipped", "ClaimOtherAuthor", "BadSig", "Resigned"}
 =============================================================================
